@@ -87,8 +87,26 @@ def cases(draw, tier="quick"):
     kids = draw(st.permutations(kids))
     root = dict(type="dir", name=b"", children=list(kids), sort=draw(st.booleans()), mode=0o755)
     flags = draw(st.lists(st.sampled_from(["-C", "-O", "-T", "-X", "-Z", "-q", "-D", "-S", "-F", "-L", "-E"]), unique=True, max_size=6))
-    return dict(root=root, flags=flags, upath=draw(st.sampled_from([b"/", b"/", b"/", b"/d", b"/evil", b"/x"])),
+    # a second image unpacked into the same directory afterwards: where the first one left a symlink, the second has a directory
+    # with contents (what the first unpack created inside R must not become a way out for the second)
+    again = None
+    if draw(st.sampled_from([False, False, True])):
+        again = dict(flags=draw(st.lists(st.sampled_from(["-C", "-O", "-T", "-X", "-q"]), unique=True, max_size=4)), keep_files=draw(st.booleans()))
+    return dict(root=root, flags=flags, again=again, upath=draw(st.sampled_from([b"/", b"/", b"/", b"/d", b"/evil", b"/x"])) if again is None else b"/",
                 rstyle=draw(st.sampled_from(["abs", "abs", "rel", "rel", "nested", "abs_existing", "is_file", "dangling_link", "link_to_file"])), data_comp=draw(st.booleans()))
+
+
+def second_image(n, keep_files):
+    """the tree of the second image: symlinks of the first become directories with a setuid file and a sub directory inside"""
+    m = {k: v for k, v in n.items() if k not in ("children", "target", "target_sel")}
+    if n["type"] == "slink":
+        m.update(type="dir", mode=0o777, children=[dict(type="file", name=b"pwn2", data=b"PWNED by the second image", frag=True, mode=0o4755),
+                                                   dict(type="dir", name=b"sub2", mode=0o777, children=[dict(type="file", name=b"deep2", data=b"x", frag=True, mode=0o666)])])
+        m.pop("ext", None)
+    elif n["type"] == "dir":
+        kids = [second_image(c, keep_files) for c in n.get("children") or [] if keep_files or c["type"] in ("dir", "slink")]
+        m["children"] = kids
+    return m
 
 
 def resolve_targets(n, jail):
@@ -238,6 +256,33 @@ def check_case(case, opts):
             raise Violation("%s: exit status %s" % (what, r.rc), None, sig="odd-status")
         hostile = 0
         classes = ["rc_%d" % r.rc, "rstyle_" + rs]
+        if case.get("again") and os.path.isdir(R) and not os.path.islink(R):
+            ag = case["again"]
+            try:
+                img2, _ = sqfswrite.build(second_image(root, ag["keep_files"]), data_comp=case["data_comp"], pad=4096)
+            except Exception as e:
+                raise Inconclusive("writer (second image): %r" % e)
+            imgp2 = os.path.join(sc, "img2.sqfs")
+            with open(imgp2, "wb") as fh:
+                fh.write(img2)
+            nlinks = sum(1 for dp, dn, fn in os.walk(R) for x in dn + fn if os.path.islink(os.path.join(dp, x)))
+            r2 = vcommon.run([vcommon.tool("asan", "rdsquashfs"), "-u", "/", "-p", Rarg] + ag["flags"] + [imgp2], cwd=cwd, timeout=30)
+            after2 = snapshot(J, R)
+            what2 = "a second image unpacked into the same directory (rdsquashfs -u / -p R %s), which holds %d symlinks from the first" % (" ".join(ag["flags"]), nlinks)
+            if r2.timeout:
+                raise Violation("%s does not terminate" % what2, None, sig="hang")
+            if r2.sanitizer():
+                raise Violation("%s: %s" % (what2, r2.sanitizer()), r2.err.decode(errors="replace")[-1500:], sig="crash")
+            if rs == "nested":
+                for k in (b"deep", b"deep/er"):
+                    after2.pop(k, None)
+                if b"." in after2:
+                    after2[b"."] = [x for x in after2[b"."] if not isinstance(x, list)]
+            if after != after2:
+                ch = [k for k in set(after) | set(after2) if after.get(k) != after2.get(k)]
+                raise Violation("%s changed the file system outside the unpack root: %r" % (what2, [(k, after.get(k), after2.get(k)) for k in sorted(ch)[:3]]),
+                                r2.err.decode(errors="replace")[-800:], sig="escape-second-image")
+            classes.append("second_image_over_%s" % ("symlinks" if nlinks else "no_symlinks"))
 
         def count(n):
             nonlocal hostile
